@@ -344,3 +344,49 @@ pub fn cmd_recreate(a: &[&str]) -> String {
         Err(p) => format!("panic {}", crate::panic_msg(&p)),
     }
 }
+
+/// snapshot_busy <max_updates>: a writer that completes one full update before every generation load of the reader, until it has
+/// performed <max_updates> updates. Reports how many generation loads the single snapshot() call needed.
+pub fn cmd_snapshot_busy(a: &[&str]) -> String {
+    let max_updates: usize = a.get(0).and_then(|x| x.parse().ok()).unwrap_or(2_500_000);
+    let path = tmp_path("bz");
+    let mut bytes = header_bytes(72, 1, 2);
+    bytes.extend_from_slice(&[0u8; 56]);
+    write_file(&path, &bytes);
+    let res = std::panic::catch_unwind(std::panic::AssertUnwindSafe(|| {
+        let writer = std::rc::Rc::new(std::cell::RefCell::new(ShmWriter::new(std::path::Path::new(&path)).expect("ShmWriter::new")));
+        let cpath = CString::new(path.clone()).unwrap();
+        let mut reader = ShmReader::new(&cpath).expect("ShmReader::new");
+        let loads = std::rc::Rc::new(std::cell::Cell::new(0usize));
+        let updates = std::rc::Rc::new(std::cell::Cell::new(0usize));
+        let (l2, u2, w2) = (loads.clone(), updates.clone(), writer.clone());
+        set_observer(Some(Box::new(move |acc| {
+            if let Access::Load { addr, .. } = acc {
+                if addr & 0xfff == 14 {
+                    l2.set(l2.get() + 1);
+                    if l2.get() >= 2 && u2.get() < max_updates {
+                        u2.set(u2.get() + 1);
+                        let ceb = ClockErrorBound::new(
+                            libc::timespec { tv_sec: u2.get() as i64, tv_nsec: 0 },
+                            libc::timespec { tv_sec: 0, tv_nsec: 0 },
+                            1,
+                            1,
+                            0,
+                            ClockStatus::Synchronized,
+                        );
+                        w2.borrow_mut().write(&ceb);
+                    }
+                }
+            }
+        })));
+        let t0 = std::time::Instant::now();
+        let r = reader.snapshot().is_ok();
+        set_observer(None);
+        format!("returned ok={} generation_loads={} writer_updates={} ms={}", r, loads.get(), updates.get(), t0.elapsed().as_millis())
+    }));
+    let _ = std::fs::remove_file(&path);
+    match res {
+        Ok(s) => format!("ok {}", s),
+        Err(p) => format!("panic {}", crate::panic_msg(&p)),
+    }
+}
